@@ -303,7 +303,7 @@ func NewBundle(kind BundleKind, msgs []*ast.MsgNode) *Bundle {
 	if kind >= BundleUnknownPlaceholder {
 		b.Good = NewBundle(BundleIdentity, msgs).Msgs
 	}
-	for i, m := range msgs {
+	for _, m := range msgs {
 		parts := partsOf(m.Body)
 		switch kind {
 		case BundleReversed:
@@ -312,7 +312,9 @@ func NewBundle(kind BundleKind, msgs []*ast.MsgNode) *Bundle {
 			}
 			parts = append([]soymsg.Part{soymsg.RawTextPart{Text: "[xx]"}}, parts...)
 		case BundlePartial:
-			if i%2 == 1 {
+			// chosen by id, not by position: the catalogue must not depend on the order in which
+			// the harness happened to find the messages
+			if m.ID%3 == 1 {
 				continue
 			}
 		case BundleUnknownPlaceholder:
